@@ -266,7 +266,7 @@ uudecode_bidder_bid(struct archive_read_filter_bidder *self,
 	const unsigned char *b;
 	ssize_t avail, ravail;
 	ssize_t len, nl;
-	int l;
+	int l, l0;
 	int firstline;
 	size_t nbytes_read;
 
@@ -305,8 +305,7 @@ uudecode_bidder_bid(struct archive_read_filter_bidder *self,
 		if (nbytes_read >= UUENCODE_BID_MAX_READ)
 			return (0);
 	}
-	if (!avail)
-		return (0);
+	/* bid_get_line() reads more when the buffered data ends here. */
 	len = bid_get_line(filter, &b, &avail, &ravail, &nl, &nbytes_read);
 	if (len < 0 || nl == 0)
 		return (0);/* There are non-ascii characters. */
@@ -318,6 +317,7 @@ uudecode_bidder_bid(struct archive_read_filter_bidder *self,
 			return (0);
 		/* Get a length of decoded bytes. */
 		l = UUDECODE(*b++); len--;
+		l0 = l;
 		if (l > 45)
 			/* Normally, maximum length is 45(character 'M'). */
 			return (0);
@@ -335,17 +335,44 @@ uudecode_bidder_bid(struct archive_read_filter_bidder *self,
 			++b;
 			--len;
 		}
+		if (l0 == 0 && len - nl == 0) {
+			/* An empty body: a zero-length line; "end" must
+			 * follow (reading more if necessary). */
+			b += nl;
+			len = bid_get_line(filter, &b, &avail, &ravail, &nl,
+			    &nbytes_read);
+			if (len - nl == 3 && memcmp(b, "end", 3) == 0)
+				return (firstline+30);
+			return (0);
+		}
 		b += nl;
-		if (avail && uuchar[*b])
+		if (avail == 0) {
+			/* The buffered data ends with this line: read on. */
+			len = bid_get_line(filter, &b, &avail, &ravail, &nl,
+			    &nbytes_read);
+			if (len <= 0)
+				return (0);
+		}
+		if (uuchar[*b])
 			return (firstline+30);
 	} else if (l == 13) {
 		/* "begin-base64 " */
+		if (len - nl == 4 && memcmp(b, "====", 4) == 0)
+			/* An empty body: the end marker follows the header. */
+			return (firstline+40);
 		while (len-nl > 0) {
 			if (!base64[*b++])
 				return (0);
 			--len;
 		}
 		b += nl;
+		if (avail == 0) {
+			/* The buffered data ends with this line: read on. */
+			len = bid_get_line(filter, &b, &avail, &ravail, &nl,
+			    &nbytes_read);
+			if (len <= 0)
+				return (0);
+		}
 
 		if (avail >= 5 && memcmp(b, "====\n", 5) == 0)
 			return (firstline+40);
@@ -525,7 +552,8 @@ read_more:
 			return (ARCHIVE_FATAL);
 		}
 		llen = len;
-		if ((nl == 0) && (uudecode->state != ST_UUEND)) {
+		if ((nl == 0) &&
+		    (uudecode->state != ST_UUEND || ravail > 0)) {
 			if (total == 0 && ravail <= 0) {
 				/* There is nothing more to read, fail */
 				archive_set_error(&self->archive->archive,
